@@ -132,6 +132,7 @@ SH_PAYLOADS = [
                                                out='[from-description]\n',
                                                err='',
                                                env={DVAR: 'from-description'})),
+    ('show-descr', 'echo "[$%s]"' % DVAR, dict(ok=True, out='[]\n', err='')),
     ('env-set',  'export %s=x; true' % NEW, dict(ok=True, out='', err='')),
     ('noexe',    None,                    dict(ok=False)),
 ]
@@ -364,6 +365,7 @@ def run_seq(part, seq, verbose=False):
     cwd0 = os.getcwd()
     w    = make_worker()
     ref  = Views()
+    tenv0 = dict(w._task_env)     # what proc / shell requests start from
     replay = {'part': 'c', 'seq': seq}
     hist = list()
     obs  = list()
@@ -440,6 +442,15 @@ def run_seq(part, seq, verbose=False):
                              % spec_name(spec))
             hist.append('%s -> %s' % (spec_name(spec), o))
             obs.append(o)
+
+            # -- the base environment of proc / shell requests is the worker's
+            d_tenv = env_diff(dict(w._task_env), tenv0)
+            if d_tenv and not prev.get('tenv') == d_tenv:
+                viol('env-restored', site, 'task-env',
+                     'after %s the environment which proc/shell requests '
+                     'start from differs from before the first request: %s'
+                     % (spec_name(spec), d_tenv))
+            prev['tenv'] = d_tenv
 
             # -- restoration before the next request runs ------------------------
             # (a difference is attributed to the request after which it shows
